@@ -347,10 +347,23 @@ func (g *HistoryGen) Delete() Step {
 	return st
 }
 
+// DeleteAll deletes every stored point (and maybe some that are not stored).
+func (g *HistoryGen) DeleteAll() Step {
+	st := Step{Kind: "delete", Note: "all"}
+	st.Ids = append(st.Ids, g.storedIds()...)
+	for _, id := range g.M.Delete(st.Ids) {
+		g.Gone[id] = true
+	}
+	return st
+}
+
 // Next draws the next step.
 func (g *HistoryGen) Next() Step {
 	t := g.T
 	k := rapid.IntRange(0, 11).Draw(t, g.label("step"))
+	if k >= 8 && k <= 9 && len(g.M.Docs) > 0 && rapid.IntRange(0, 5).Draw(t, g.label("delall")) == 0 {
+		return g.DeleteAll()
+	}
 	switch {
 	case k <= 3 || len(g.M.Docs) == 0 && k <= 7:
 		return g.Insert()
